@@ -814,16 +814,29 @@ class PseudoNetCDFFile(PseudoNetCDFSelfReg, object):
         else:
             outf = self.copy()
 
-        for oldkey, newkey in newkeys.items():
-            outf.dimensions[newkey] = outf.dimensions[oldkey]
+        # take the old dimension objects first, so that swaps, renaming a
+        # dimension to itself and chains do not lose any dimension
+        renamed = [(oldkey, newkey, outf.dimensions[oldkey])
+                   for oldkey, newkey in newkeys.items()]
+        targets = [newkey for oldkey, newkey, dim in renamed]
+        for newkey in targets:
+            if (
+                targets.count(newkey) > 1 or
+                (newkey in outf.dimensions and newkey not in newkeys)
+            ):
+                raise ValueError(
+                    'Cannot rename to %s; the dimension already exists'
+                    % newkey)
+        for oldkey, newkey, dim in renamed:
+            del outf.dimensions[oldkey]
+        for oldkey, newkey, dim in renamed:
+            outf.dimensions[newkey] = dim
 
         for k, v in outf.variables.items():
             olddims = v.dimensions
             newdims = tuple([newkeys.get(dk, dk) for dk in olddims])
             if newdims != olddims:
                 v.dimensions = newdims
-        for oldkey, newkey in newkeys.items():
-            del outf.dimensions[oldkey]
 
         return outf
 
